@@ -96,7 +96,29 @@ static int in_list(const char* n, char** L, int nL) { for (int i = 0; i < nL; i+
 
 // ---------------------------------------------------------------- base state
 static mjModel* make_model(unsigned long long seed, unsigned feat, int nb, int integ, int enable) {
-  mjModel* m = mjg_model(seed, feat, nb, NULL);
+  mjModel* m;
+  if ((enable >> 20) & 1) {
+    // bit 20: append multi-input (PID: [pos, vel] controls) actuators so that nu > nactuator and the
+    // trailing control entries belong to them (end-to-end runs only)
+    mjSpec* s = mjg_spec(seed, feat, nb);
+    int added = 0;
+    for (mjsElement* e = mjs_firstElement(s, mjOBJ_JOINT); e && added < 2; e = mjs_nextElement(s, e)) {
+      mjsJoint* j = mjs_asJoint(e);
+      if (!j || (j->type != mjJNT_HINGE && j->type != mjJNT_SLIDE)) continue;
+      const char* nm = mjs_getString(mjs_getName(e));
+      if (!nm || !nm[0]) continue;
+      mjsActuator* a = mjs_addActuator(s, NULL);
+      char an[32]; snprintf(an, sizeof an, "c01pid%d", added); mjs_setName(a->element, an);
+      a->trntype = mjTRN_JOINT; mjs_setString(a->target, nm);
+      a->gaintype = mjGAIN_PID; a->biastype = mjBIAS_AFFINE; a->dyntype = mjDYN_NONE;
+      a->gainprm[0] = 0; a->gainprm[1] = 5; a->gainprm[2] = 0.5;
+      added++;
+    }
+    m = mj_compile(s, NULL);
+    mj_deleteSpec(s);
+  } else {
+    m = mjg_model(seed, feat, nb, NULL);
+  }
   if (!m) return NULL;
   if (integ >= 0) m->opt.integrator = integ;
   m->opt.enableflags |= (enable & 0xFF);
